@@ -425,6 +425,19 @@ impl<CS: BbsCiphersuite> PoKSignature<BBSplus<CS>> {
                 )
             })?;
 
+        // signer indexes address the L signer messages, commitment indexes the M committed ones;
+        // anything else would let a message of one kind be presented as one of the other kind
+        if disclosed_indexes.iter().any(|&i| i >= L) {
+            return Err(Error::PoKSVerificationError(
+                "disclosed index out of range".to_owned(),
+            ));
+        }
+        if disclosed_commitment_indexes.iter().any(|&j| j >= M) {
+            return Err(Error::PoKSVerificationError(
+                "commitment disclosed index out of range".to_owned(),
+            ));
+        }
+
         let (message_scalars, generators) = prepare_parameters::<CS>(
             Some(disclosed_messages),
             Some(disclosed_committed_messages),
